@@ -678,6 +678,20 @@ def scenario(name, rng):
         return kwnruns.build_binary(infinite=False, vratio=rng.choice([1.0, 1.2]), **small), 3600 * 5
     if name == 'alzr-loaded':
         return kwnruns.build_loaded_binary(rng, vratio=rng.choice([1.0, 1.3])), 3600 * 5
+    if name in ('alzr-fixed-grid', 'alzr-top-loaded'):
+        # a population close to the top of a small grid in a supersaturated matrix: it grows into the last class within a few
+        # steps; with adaptive=False the class WIDTH is fixed but the grid must still be extended (else particles leave through
+        # the largest class)
+        m = kwnruns.build_binary(x0=rng.uniform(3e-3, 5e-3), bins=rng.randint(36, 44), minBins=30, maxBins=rng.randint(55, 65), cMax=rng.uniform(3.6e-9, 4.4e-9),
+                                 adaptive=(name != 'alzr-fixed-grid'))
+        m.setup()
+        r1 = rng.uniform(0.78, 0.86) * float(m.PBM[0].PSDbounds[-1]); amp = 10 ** rng.uniform(16.5, 19.5)
+
+        def top(r):
+            n = amp * np.exp(-((r - r1) / 0.2e-9) ** 2); n[n < 1] = 0
+            return n
+        m.PBM[0].LoadDistributionFunction(top)
+        return m, 3600 * 5
     if name == 'alzr-loaded-dilute':
         # few, coarse particles close to the top of a small grid: the grid is extended and re-meshed while the particle volume is tiny
         m = kwnruns.build_binary(x0=rng.uniform(3e-3, 4e-3), bins=40, minBins=30, maxBins=50, cMax=4e-9)
@@ -952,6 +966,7 @@ ORACLES = {
     'volume':    'the stored distribution after the step holds the particle volume of the state the row was computed from, up to the <1/m3 truncation (C01/C02)',
     'recorded':  'the recorded size distribution of a step is the stored one (C02)',
     'nuc':       'negative driving force => no nucleation terms; non-zero critical radius >= Rmin; no nucleation radius without it (C14)',
+    'topflow':   'no more than one particle per m3 leaves through the largest class in a step: the number density changes only by nucleation and by dissolution through the smallest class (C02)',
     'lookup':    'binary: lookup table computed within maxTempChange of the newest recorded temperature (C13)',
 }
 
@@ -1056,6 +1071,24 @@ def step_oracles(res, rec, cfg, name, which):
                         res.violate('composed:density-rises-more-than-nucleation', 'the state handed to postProcess holds more particles than the entry state + '
                                     'nucleation rate x recorded step', dict(scenario=name, step=i, phase=p, dt=dt, nucRate=nr, t=st['post']['hist'][0]['time']),
                                     float(xn.sum()) - float(x0.sum()), nr * dt)
+    if 'topflow' in which:
+        # C02: between steps the number density changes only by nucleation and by dissolution through the SMALLEST class - what
+        # the uncorrected upwind flux of the entry state would push through the upper end of the grid in this step is less than one
+        # particle (the grid is extended as soon as the last class holds more than one); the first step after a user-loaded
+        # distribution is exempt (the user may load particles into the last class)
+        for i, st in enumerate(steps):
+            if i == 0 or len(st['eval_ans']) != 1:
+                continue
+            dt = st['post']['hist'][0]['time'] - st['pre']['hist'][0]['time']
+            for p, pp in enumerate(st['pre']['ph']):
+                g = np.asarray(pp['growth'], dtype=float); x0 = np.asarray(pp['psd'], dtype=float); b = np.asarray(pp['bounds'], dtype=float)
+                if len(g) != len(b) or len(x0) + 1 != len(b) or len(x0) < 2:
+                    continue
+                out = max(float(g[-1]), 0.0) * float(x0[-1]) / float(b[-1] - b[-2]) * dt
+                if out > 1.0 + 1e-9 * float(x0.sum()):
+                    res.violate('composed:particles-leave-through-largest-class', 'the upwind flux of the entry state pushes more than one particle per m3 through the upper end of the grid in this step (the number density may only change by nucleation and by dissolution through the smallest class)',
+                                dict(scenario=name, step=i, phase=p, dt=dt, t=st['post']['hist'][0]['time'], last_class_population=float(x0[-1]), growth_at_top=float(g[-1]), bins=len(x0)), out, '< 1')
+                    break
     if 'fault' in which:
         for i, st in enumerate(steps):
             pa = st.get('post_ans')
